@@ -9,6 +9,7 @@ import BB.Spec.Decode32
 import BB.Spec.Decode16
 import BB.Spec.Intent
 import BB.Spec.Legal
+import BB.Spec.Exec
 import BB.Item
 import BB.Dict
 import BB.Passes
